@@ -722,3 +722,84 @@ func onlyCalledFrom(p *Program, fn *ssa.Function, caller string) bool {
 	}
 	return n > 0
 }
+
+// C17-R10 SUBSCRIPTION-CLOSED: a function that subscribes to a topic and keeps
+// the subscription to itself closes it on every path out (directly or by
+// defer). A subscription left registered makes the next Publish block forever
+// on its unbuffered channel while holding the topic's mutex.
+func ruleSubscriptionClosed(c *Check, rule string) {
+	nFn, nPaths, bad := 0, 0, 0
+	for _, fn := range c.P.RepoFuncs() {
+		if !sfInScope(fn) || fn.Blocks == nil {
+			continue
+		}
+		has := false
+		for _, b := range fn.Blocks {
+			for _, in := range b.Instrs {
+				if ci, ok := in.(ssa.CallInstruction); ok {
+					if f := ci.Common().StaticCallee(); f != nil && strings.HasSuffix(QualName(f), ").Subscribe") && strings.HasPrefix(QualName(f), "utils/topics.") {
+						has = true
+					}
+				}
+			}
+		}
+		if !has {
+			continue
+		}
+		name := QualName(fn)
+		if strings.HasPrefix(name, "utils/topics.(*Topic[T]).Subscribe") {
+			continue
+		}
+		nFn++
+		c.UseFunc(name)
+		w := Walk(c.P, fn, WalkConfig{Memo: true,
+			KeepEvent: func(e *Event) bool {
+				return e.Kind == "ret" || e.Kind == "defer" || e.Kind == "call" && (strings.HasSuffix(e.Callee, ").Subscribe") || strings.HasSuffix(e.Callee, ").Close"))
+			},
+			KeepAtom: func(a Atom) bool { return false }})
+		if w.Err != nil {
+			c.Undecided(rule, name, "path walk failed: "+w.Err.Error(), c.P.Pos(fn.Pos()))
+			continue
+		}
+		seen := map[string]bool{}
+		for i := range w.Paths {
+			p := &w.Paths[i]
+			if p.End != "return" && p.End != "panic" {
+				continue
+			}
+			for _, s := range callsOf(p, "utils/topics.(*Topic[T]).Subscribe") {
+				escapes := false
+				for _, r := range p.Rets {
+					if strings.Contains(r, s.Res) {
+						escapes = true
+					}
+				}
+				for _, e := range p.Events {
+					if e.Kind == "store" && strings.Contains(e.Val, s.Res) && !strings.HasPrefix(e.Addr, "&alloc:") {
+						escapes = true
+					}
+				}
+				if escapes {
+					continue
+				}
+				nPaths++
+				closed := false
+				for _, cl := range callsOf(p, "utils/topics.(*Subscription[T]).Close") {
+					if len(cl.Args) > 0 && cl.Args[0] == s.Res {
+						closed = true
+					}
+				}
+				key := c.pathPos(p)
+				if !closed && !seen[key] {
+					seen[key] = true
+					bad++
+					c.Bad(rule, name+"/subscription-closed", "a path leaves the function with its subscription still registered (no Close, direct or deferred): the next Publish blocks forever on the abandoned unbuffered channel while holding the topic's mutex, and with it every other user of the topic", key, describe(c, p))
+				}
+			}
+		}
+	}
+	if bad == 0 {
+		c.Ok(rule, "subscription-closed", fmt.Sprintf("%d function(s) subscribe and keep the subscription: it is closed on all %d paths out", nFn, nPaths), "")
+	}
+	c.Floor(rule, nPaths, 1, "paths out of subscribing functions")
+}
